@@ -1,3 +1,4 @@
 //! Shared generators (all driven by `engine::Src`).
 pub mod chunks;
 pub mod bytes;
+pub mod html;
